@@ -58,7 +58,7 @@ def main():
                     or "Runtime monitor with a deterministic oracle evaluated on every execution of an exhaustive small-scope plus seeded random workload on the real library; the verdict reads 'held on the executions described in the evidence file'.",
                     "design_ref": DESIGN_REF[pid],
                 },
-                "level_note": "Trusted base: the monitor/oracle code under /verif/vf (reference model written from the property statement), CPython, the workload bounds stated in the evidence 'rule'. " + " ".join(getattr(mod, "ASSUMPTIONS", [])),
+                "level_note": "Trusted base: the monitor/oracle code under /verif/vf (reference model written from the property statement), CPython, the workload bounds stated in the evidence 'rule'. " + "Assumptions: " + "; ".join(getattr(mod, "ASSUMPTIONS", [])) + ".",
                 "technique": mod.TECHNIQUE,
             }
         )
